@@ -20,7 +20,7 @@ func init() {
 			return evid.Spec{ID: "C06", Level: "model_checking", Exhaustive: true,
 				Rule: "plane 1: every flag octet x every odd sequence number for one (type, minor, session); plane 2: type{1,2,3} x minor{0,1} x 6 session ids x flags{0,1,4,5,0xfe,0xff} x seq{1,3,127,253,255}; " +
 					"each crossed with reply bodies {authentication minimal, RESTART, 300 B, authorization with arguments, accounting, 65536-byte body}; plane 3: multi-packet chains of depth <= 3 " +
-					"(seq s, s+2, s+4 via registered continuations, s in {1,3,249,251,253}) over type x minor x flags{0,1,4,0xff}; plane 5: typed replies sweeping every value of their leading octets (accounting server_msg/data lengths 256k+3, k, authorization argument counts 0..255, every authentication status x sizes). Raw reply octets are compared with the model: same version octet, type, flag octet, " +
+					"(seq s, s+2, s+4 via registered continuations, s in {1,3,249,251,253}) over type x minor x flags{0,1,4,0xff}; plane 5: typed replies sweeping every value of their leading octets (accounting server_msg/data lengths 256k+3, k, authorization argument counts 0..255, every authentication status x sizes); plane 6: three requests on one connection (a continued session and another session) over all triples of flag octets {0,4,1,5,0xfa}. Raw reply octets are compared with the model: same version octet, type, flag octet, " +
 					"session id, seq+1 (1 on RESTART), length field == bytes that follow, body == cleartext XOR reference pad iff the request's unencrypted bit was clear, nothing for request 255, never seq 0. " +
 					"states = distinct (request header class, reply kind) model states; transitions = requests executed; traces = chains fully agreed",
 				Assumptions: []string{"handlers are scripted (library flavour); the reference server's own handlers are covered by C07"}}
@@ -202,6 +202,28 @@ func c06Run(c *Ctx) {
 			for _, seq := range []byte{1, 253, 255} {
 				for _, fl := range []byte{0, 1} {
 					emit([]c06Event{{H: ref.Header{Version: 0xc0, Type: typ, Seq: seq, Flags: fl, Session: uint32(0x50000 + i)}, Reply: kd}})
+				}
+			}
+		}
+	}
+	// plane 6: several requests on ONE connection whose flag octets differ (same session through a continuation, and
+	// different sessions): every reply mirrors its own request, whatever came before on the connection
+	{
+		fls := []byte{0, 4, 1, 5, 0xfa}
+		for _, f1 := range fls {
+			job++
+			if !c.Mine(job) {
+				continue
+			}
+			for _, f2 := range fls {
+				for _, f3 := range fls {
+					for _, typ := range []byte{1, 2} {
+						h1 := ref.Header{Version: 0xc0, Type: typ, Seq: 1, Flags: f1, Session: 0x6001}
+						h2 := ref.Header{Version: 0xc0, Type: typ, Seq: 3, Flags: f2, Session: 0x6001}
+						h3 := ref.Header{Version: 0xc1, Type: typ, Seq: 1, Flags: f3, Session: 0x6002}
+						emit([]c06Event{{H: h1, Reply: "min", Next: true}, {H: h2, Reply: "300"}, {H: h3, Reply: "min"}})
+						emit([]c06Event{{H: h3, Reply: "min"}, {H: h1, Reply: "min", Next: true}, {H: h2, Reply: "min"}})
+					}
 				}
 			}
 		}
